@@ -294,6 +294,12 @@ class ScriptedSim(mosaik_api_v3.Simulator):
         self._rec(op="call", kind="get_data", sid=self.sid, time=p.get("time"), k=p.get("k"),
                   req=copy.deepcopy(outputs))
         self._fault("get_data")
+        if p.get("fetched") and self.beh.get("slow_async_get_data") and not self.remote:
+            # not the scheduler's own get_data after the step but a later one: an agent's asynchronous request,
+            # which this (in-process) simulator takes very long to answer
+            import asyncio
+            yield asyncio.sleep(self.beh["slow_async_get_data"])
+        p["fetched"] = True
         yield from self._latency("get_data")
         self._fault_late("get_data")
         data: Dict[str, Any] = {}
@@ -407,8 +413,11 @@ class ScriptedSim(mosaik_api_v3.Simulator):
         if how == "raise":
             raise RuntimeError(f"injected failure in {self.sid}.{kind}")
         if how.startswith("raise_"):
+            import asyncio
             exc = {"TypeError": TypeError, "ValueError": ValueError, "KeyError": KeyError,
-                   "ConnectionError": ConnectionError, "AssertionError": AssertionError}[how[6:]]
+                   "ConnectionError": ConnectionError, "AssertionError": AssertionError,
+                   # e.g. a simulator that wraps a job of its own which was cancelled
+                   "CancelledError": asyncio.CancelledError}[how[6:]]
             raise exc(f"injected failure in {self.sid}.{kind}")
         if how == "exit":
             os._exit(3)
